@@ -1337,7 +1337,7 @@ def run_roots(ctx, d, exe, consts, outdir, total):
         cmd = [hexe, "bare", str(heap), "0", hist]
         replay = "CHIBI_VERIF_TRACE=/var/tmp/c10.trace CHIBI_VERIF_SWEEPLOG=1 CHIBI_VERIF_AUDIT=1 LD_LIBRARY_PATH=%s %s" % (d, " ".join(cmd))
         try:
-            r = subprocess.run(cmd, capture_output=True, text=True, timeout=300, env=env)
+            r = subprocess.run(cmd, capture_output=True, text=True, timeout=(90 if not ctx.thorough else 300), env=env)
             rc, out, err = r.returncode, r.stdout, r.stderr
         except subprocess.TimeoutExpired as e:
             rc, out, err = "TIMEOUT", (e.stdout or b"").decode("utf-8", "replace") if isinstance(e.stdout, bytes) else (e.stdout or ""), ""
@@ -1620,7 +1620,7 @@ def run_members_eval(ctx, d, outdir):
     cmd = [hexe, "eval", str(2 << 20), "0", hist]
     replay = "CHIBI_VERIF_AUDIT=1 LD_LIBRARY_PATH=%s CHIBI_MODULE_PATH=%s/lib CHIBI_IGNORE_SYSTEM_PATH=1 %s   # MAUDIT FAIL lines" % (d, d, " ".join(cmd))
     try:
-        r = subprocess.run(cmd, capture_output=True, text=True, timeout=600, env=B.chibi_env(d, {"CHIBI_VERIF_AUDIT": "1"}))
+        r = subprocess.run(cmd, capture_output=True, text=True, timeout=(150 if not ctx.thorough else 600), env=B.chibi_env(d, {"CHIBI_VERIF_AUDIT": "1"}))
         rc, out, err = r.returncode, r.stdout, r.stderr
     except subprocess.TimeoutExpired as e:
         rc, out, err = "TIMEOUT", (e.stdout or b"").decode("utf-8", "replace") if isinstance(e.stdout, bytes) else (e.stdout or ""), ""
